@@ -3,6 +3,10 @@ mod rng;
 mod sim;
 mod vclock;
 mod m_c13;
+mod m_run;
+mod oracles;
+mod simnet;
+mod strat;
 
 use std::io::Write;
 
@@ -51,6 +55,7 @@ fn main() {
     let mut out = Out { w: std::io::BufWriter::new(std::io::stdout()), n: 0 };
     match mode.as_str() {
         "c13" => m_c13::run(&args, &mut out),
+        "run" => m_run::run(&args, &mut out),
         other => { eprintln!("unknown mode {other}"); std::process::exit(2); }
     }
     out.w.flush().unwrap();
